@@ -14,6 +14,8 @@ every batch compared with the same molecule computed alone (differential twin):
         copies of every alphabet molecule (all ordered pairs / triples), with and without extra padding,
         ground and first excited state active (analytical excited gradient); mixed batches of distinct
         molecules (CIS energies; RPA and excited gradients are rejected loudly and counted)
+  (cfg and the homogeneous CIS/RPA batches are executed twice: never-written `torch.empty` memory
+        answered with zeros, as everywhere else, and with NaN)
   md    BOMD / XL-BOMD(k=3) / KSA-XL-BOMD (err_threshold 0 and 1e-3), 4 steps, user-supplied velocities:
         every HDF5 dataset of molecule k of the batch run equals that of its run alone
 
@@ -128,11 +130,11 @@ def tolerance(cfg):
 # --------------------------------------------------------------------------- execution
 
 
-def _sp_call(mols, cfg, pad, pat):
+def _sp_call(mols, cfg, pad, pat, uninit="zero"):
     """one real call under the horizon; returns (obs | None, status, message)"""
     buf = io.StringIO()
     try:
-        with contextlib.redirect_stdout(buf), Horizon(HORIZON) as hz:
+        with contextlib.redirect_stdout(buf), B.uninitialised(uninit), Horizon(HORIZON) as hz:
             obs = B.single_point(mols, make_params(cfg), pad, pat, active_state=cfg.get("act") or None)
         return obs, "ok", hz.max_count()
     except IterationHorizon as e:
@@ -146,10 +148,11 @@ def _sp_call(mols, cfg, pad, pat):
 def _md_call(mols, specs, cfg, pad, pat):
     eng, xe = ENGINES[cfg["engine"]]
     p = sp.make_params(cfg["method"], cfg["solver"], eps=SCF_EPS)
-    return B.run_md(
-        eng, mols, p, MD_STEPS, dt=0.5, temp=0.0, velocities=[velocity(s) for s in specs], pad_extra=pad, pattern=pat,
-        k=3, xl_extra=xe, horizon=Horizon(HORIZON),
-    )  # fmt: skip
+    with B.uninitialised("zero"):
+        return B.run_md(
+            eng, mols, p, MD_STEPS, dt=0.5, temp=0.0, velocities=[velocity(s) for s in specs], pad_extra=pad,
+            pattern=pat, k=3, xl_extra=xe, horizon=Horizon(HORIZON * (MD_STEPS + 1)),
+        )  # fmt: skip
 
 
 def ref_key(cfg, spec):
@@ -331,7 +334,7 @@ def run_case(case, refs=None):
             out["worst"] = max(out["worst"], w)
             out["problems"] += [f"row {k} ({s[0]}): {x}" for x in p]
         return out
-    obs, status, msg = _sp_call(mols, cfg, pad, pat)
+    obs, status, msg = _sp_call(mols, cfg, pad, pat, case.get("uninit", "zero"))
     if status != "ok":
         out["status"] = status
         if status == "horizon" and sp2_anion_padded:
@@ -439,7 +442,10 @@ def lattice(tier, seed):
         for method in METHODS:
             for solver in SOLVERS:
                 for fmode in FMODES:
-                    cases.append(_case("cfg", [_spec(a), _spec(b)], 1, "mixed", _cfg(method, solver, fmode), seed))
+                    for uninit in ("zero", "nan"):
+                        c = _case("cfg", [_spec(a), _spec(b)], 1, "mixed", _cfg(method, solver, fmode), seed)
+                        c["uninit"] = uninit
+                        cases.append(c)
     # tr: transpositions
     for i, name in enumerate(ALPHABET):
         mate = ALPHABET[(i + 3) % len(ALPHABET)]
@@ -462,6 +468,11 @@ def lattice(tier, seed):
                     if not quick or len(cb) == 2:
                         cases.append(_case("cis", specs, w, pat, _cfg("AM1", ex=ex, act=act), seed))
                 cases.append(_case("cis", specs, w, pat, _cfg("PM6_SP", ex="cis", act=0), seed))
+            if len(cb) == 2 or not quick:
+                for ex in ("cis", "rpa"):  # adversarial content of never-written memory
+                    c = _case("cis", specs, 0, "zero", _cfg("AM1", ex=ex, act=0), seed)
+                    c["uninit"] = "nan"
+                    cases.append(c)
     mixed = [list(t) for t in itertools.permutations(ALPHABET, 2)]
     if not quick:
         mixed += [list(t) for t in itertools.permutations(ALPHABET, 3) if ALPHABET.index(t[0]) < ALPHABET.index(t[2])]
@@ -497,7 +508,7 @@ def lattice(tier, seed):
 
 def case_key(c):
     mols = ",".join(f"{s[0]}{'~%d' % s[1] if s[1] else ''}{'(%d%d)' % tuple(s[2]) if s[2] else ''}" for s in c["mols"])
-    return f"{c['sec']}|{mols}|pad{c['pad']}:{c['pat']}|{cfg_key(c['cfg'])}"
+    return f"{c['sec']}|{mols}|pad{c['pad']}:{c['pat']}|{cfg_key(c['cfg'])}" + ("|uninit=nan" if c.get("uninit") == "nan" else "")
 
 
 def describe(c, res):
@@ -523,6 +534,7 @@ def describe(c, res):
         "excited": cfg.get("ex") or "none",
         "active_state": cfg.get("act") or 0,
         "engine": cfg.get("engine") or "none",
+        "uninitialised_memory": c.get("uninit", "zero"),
         "status": res["status"],
         "homogeneous": len(species_rows) == 1,
         "has_symmetric_copy": any(d == 0 for d in dists) and cfg.get("ex") is not None,
